@@ -18,7 +18,7 @@ structure St where
 def parseRec (v : String) : Rec :=
   if v == "-" || v == "" then .none
   else if v == "nil" then .nilValue
-  else if v == "mis" then .miskeyed
+  else if v == "mis" || v == "mis2" then .miskeyed
   else if v == "bad" then .value ⟨7, 1⟩ false
   else if v.startsWith "r" then .value ⟨(String.ofList (v.toList.drop 1)).toNat!, 0⟩ true
   else .none
